@@ -245,11 +245,21 @@ Qed.
 
 Definition top (l : list bucket) : Z := last (map snd l) 0.
 
+Lemma last_cons_default : forall (l : list Z) x d, last (x :: l) d = last l x.
+Proof.
+  induction l as [|y r IH]; intros x d; [reflexivity|].
+  change (last (x :: y :: r) d) with (last (y :: r) d). rewrite IH.
+  change (last (y :: r) x) with (match r with [] => y | _ => last r x end).
+  destruct r; [reflexivity|]. rewrite <- (IH y x). reflexivity.
+Qed.
+
 Lemma decumulate_snoc : forall l p b n,
   decumulate p (l ++ [(b, n)]) = decumulate p l ++ [n - last (map snd l) p].
 Proof.
-  induction l as [|[b0 c0] r IH]; intros p b n; simpl; [reflexivity|].
-  rewrite IH. f_equal. f_equal. f_equal. destruct r as [|[b1 c1] r']; reflexivity.
+  induction l as [|[b0 c0] r IH]; intros p b n; [reflexivity|].
+  change (decumulate p (((b0, c0) :: r) ++ [(b, n)])) with ((c0 - p) :: decumulate c0 (r ++ [(b, n)])).
+  rewrite IH. change (map snd ((b0, c0) :: r)) with (c0 :: map snd r).
+  rewrite last_cons_default. reflexivity.
 Qed.
 
 Definition finite_le (b : bucket) : bool := match fst b with Fin _ | NInf => true | _ => false end.
